@@ -70,6 +70,10 @@ func lookalikeTop(r *gen.Rand, ev *ref.Value, keys []string) bool {
 	default:
 		val = ref.S("x")
 	}
+	if r.Chance(0.4) {
+		// an unknown key can hold anything: a value of another JSON type than the key it resembles
+		val = gen.Pick(r, []*ref.Value{ref.I(1), ref.S("x"), ref.A(), ref.B(true), ref.NullV(), ref.O("a", ref.A())})
+	}
 	ev.Set(v, val)
 	return true
 }
@@ -118,6 +122,16 @@ var tamperings = []tampering{
 		}
 		return ok
 	}, rehash: true},
+	{name: "top-level-optional-key-of-another-type", apply: func(r *gen.Rand, t *ref.VersionTraits, ev *ref.Value) bool {
+		// keys the event format knows but no redaction algorithm keeps at the top level (redacts before v11 is
+		// kept by none either): as redactable as any unknown key, whatever their value
+		k := gen.Pick(r, []string{"sticky", "msc4354_sticky", "redacts"})
+		if k == "redacts" && ev.Get("redacts") != nil {
+			return false
+		}
+		ev.Set(k, gen.Pick(r, []*ref.Value{ref.B(true), ref.A(), ref.I(5), ref.O("duration_ms", ref.S("5000")), ref.O(), ref.NullV()}))
+		return true
+	}, redactableOnly: true},
 	{name: "rehashed-content-changed", apply: func(r *gen.Rand, t *ref.VersionTraits, ev *ref.Value) bool {
 		ev.Get("content").Set("injected_by_sender", ref.S("x"))
 		return true
